@@ -110,10 +110,31 @@ func (w *world) mk(id, ver int) elem {
 	K := w.K
 	switch k {
 	case kSC:
+		if h2[10]%3 == 0 {
+			// arranged so that the SIAFUND element with the same bytes would belong to A (value = Lo, address = Hi ++
+			// address[0:24], claim start = address[24:32] ++ maturity): the signed doors then judge membership alone
+			a := K.Addr("A")
+			var addr types.Address
+			copy(addr[:], a[8:])
+			binary.LittleEndian.PutUint64(addr[24:], uint64(h2[11]))
+			return mkElem(&types.SiacoinElement{ID: types.SiacoinOutputID(h1),
+				SiacoinOutput:  types.SiacoinOutput{Value: types.NewCurrency(1+u64(h2, 8)%900+uint64(ver), binary.LittleEndian.Uint64(a[:8])), Address: addr},
+				MaturityHeight: uint64(h2[2] % 2)})
+		}
 		return mkElem(&types.SiacoinElement{ID: types.SiacoinOutputID(h1),
 			SiacoinOutput:  types.SiacoinOutput{Value: types.NewCurrency(1000+u64(h2, 8)%100000+uint64(ver), uint64(h2[1]%2)), Address: K.Addr(owner)},
 			MaturityHeight: uint64(h2[2] % 2)})
 	case kSF:
+		if h2[10]%3 == 0 {
+			// arranged so that the SIACOIN element with the same bytes would belong to A (value = (siafund value,
+			// address[0:8]), address = address[8:32] ++ claim start Lo, maturity = claim start Hi)
+			a := K.Addr("A")
+			var addr types.Address
+			copy(addr[8:], a[:24])
+			return mkElem(&types.SiafundElement{ID: types.SiafundOutputID(h1),
+				SiafundOutput: types.SiafundOutput{Value: 1 + u64(h2, 8)%900 + uint64(ver), Address: addr},
+				ClaimStart:    types.NewCurrency(binary.LittleEndian.Uint64(a[24:]), uint64(h2[3]%2))})
+		}
 		return mkElem(&types.SiafundElement{ID: types.SiafundOutputID(h1),
 			SiafundOutput: types.SiafundOutput{Value: 1 + u64(h2, 8)%900 + uint64(ver), Address: K.Addr(owner)},
 			ClaimStart:    types.NewCurrency(u64(h2, 16)%5000, uint64(h2[3]%2))})
@@ -377,6 +398,9 @@ func token(id, ver, f, idx int, spent bool) string {
 	if f == 0 {
 		return fmt.Sprintf("L%dv%d@%d%s", id, ver, idx, su)
 	}
+	if f == -1 {
+		return fmt.Sprintf("L%dv%dr@%d%s", id, ver, idx, su)
+	}
 	return fmt.Sprintf("L%dv%df%d@%d%s", id, ver, f, idx, su)
 }
 
@@ -406,6 +430,18 @@ func (w *world) concretise(d desc, h *host) (ps []probe, tok string) {
 		case "none":
 		case "flip":
 			spent = !spent
+		case "reinterp":
+			if d.arg == 1 {
+				spent = false
+			}
+			rs := reinterpretations(e)
+			if len(rs) == 0 {
+				return nil, token(id, ver, -1, idx, spent) // no other kind has a pre-image of these bytes
+			}
+			for _, r := range rs {
+				ps = append(ps, probe{src: "tlc", base: base, mut: "reinterpret", detail: e.k.String() + "-as-" + r.k.String(), e: r, spent: spent, exp: d.exp})
+			}
+			return ps, token(id, ver, -1, idx, spent)
 		case "newver", "oldver", "oldveru":
 			if d.mut == "newver" {
 				ver++
@@ -652,6 +688,17 @@ func runCase(c *vlib.Ctx, st *stats, tmpl consensus.State, K *chain.Keyring, see
 				d.exp, flipped = false, true // binding demonstration: a corrupted expected verdict must be noticed
 			}
 			ps, tok := w.concretise(d, h)
+			if d.mut == "reinterp" && d.arg == 0 {
+				src := w.leaves[d.b].el
+				if len(ps) == 0 {
+					st.mu.Lock()
+					st.reNA[src.k.String()]++
+					st.mu.Unlock()
+				}
+				for i := range ps {
+					separation(c, st, src, ps[i].e, map[string]any{"case": m.key(), "phase": ph.Ph})
+				}
+			}
 			for i := range ps {
 				p := &ps[i]
 				p.ctx = map[string]any{"case": m.key(), "phase": ph.Ph, "descriptor": ds}
@@ -665,7 +712,7 @@ func runCase(c *vlib.Ctx, st *stats, tmpl consensus.State, K *chain.Keyring, see
 			if fi, ok := full[ds]; ok && len(ps) > 0 {
 				f := ph.Full[fi]
 				p := ps[0]
-				if d.mut != "field" && d.mut != "idfresh" {
+				if d.mut != "field" && d.mut != "idfresh" && d.mut != "reinterp" {
 					if f.H != tok {
 						c.Fatal("case %s phase %d probe %s: TLC's leaf is %s, the harness built %s", m.key(), ph.Ph, ds, f.H, tok)
 					}
